@@ -77,8 +77,10 @@ func (a *Allocator) Allocate(hint net.IPNet) (ret net.IPNet, err error) {
 	// Try to allocate the requested prefix
 	a.l.Lock()
 	defer a.l.Unlock()
-	if hint.IP.To16() != nil && a.containing.Contains(hint.IP) {
-		idx, hintErr := a.toIndex(hint.IP)
+	// net.IPNet.Contains would compare v4-mapped hints as IPv4 addresses and
+	// never find them in an IPv6 pool
+	if hintIP := hint.IP.To16(); hintIP != nil && a.inPool(hintIP) {
+		idx, hintErr := a.toIndex(hintIP)
 		if hintErr == nil && !a.bitmap.Test(idx) {
 			a.bitmap.Set(idx)
 			ret.IP, err = a.toPrefix(idx)
